@@ -50,7 +50,7 @@ class TrieNode(object):
     """
     Node of the Trie/Aho-Corasick automaton.
     """
-    __slots__ = ['token', 'output', 'fail', 'children']
+    __slots__ = ['token', 'output', 'fail', 'children', 'depth']
 
     def __init__(self, token, output=nil):
         # token of a tokens string added to the Trie as a string
@@ -67,6 +67,9 @@ class TrieNode(object):
 
         # children of this node as a mapping of char->node
         self.children = {}
+
+        # number of tokens on the path from the root to this node
+        self.depth = 0
 
     def __repr__(self):
         if self.output is not nil:
@@ -113,6 +116,8 @@ class Trie(object):
             return
 
         tokens = [t for t in get_tokens(tokens_string) if t.strip()]
+        if not tokens:
+            return
 
         # we keep track of the set of tokens added to the trie to build the
         # automaton these are needed to created the first level children failure
@@ -126,6 +131,7 @@ class Trie(object):
                 node = node.children[token]
             except KeyError:
                 child = TrieNode(token)
+                child.depth = node.depth + 1
                 node.children[token] = child
                 node = child
 
@@ -292,8 +298,13 @@ class Trie(object):
         if not tokens_string:
             return
 
-        tokens = get_tokens(tokens_string)
+        # split the original string: positions must be computed on it and not
+        # on its lowercased form whose length may differ
+        tokens = [match for match in _tokenizer.split(tokens_string) if match]
         state = self.root
+
+        # start position of each scanned token
+        starts = []
 
         if TRACE:
             logger_debug('Trie.iter() with:', repr(tokens_string))
@@ -312,13 +323,15 @@ class Trie(object):
                     logger_debug('  include_space skipped')
                 continue
 
+            starts.append(end_pos - len(token_string) + 1)
+            token_string = token_string.lower()
+
             if token_string not in self._known_tokens:
                 state = self.root
                 if TRACE:
                     logger_debug('  unmatched')
                 if include_unmatched:
-                    n = len(token_string)
-                    start_pos = end_pos - n + 1
+                    start_pos = starts[-1]
                     tok = Token(
                         start=start_pos,
                         end=end_pos,
@@ -344,8 +357,7 @@ class Trie(object):
                     matched_string, output_value = match.output
                     if TRACE:
                         logger_debug(' type output', repr(output_value), type(matched_string))
-                    n = len(matched_string)
-                    start_pos = end_pos - n + 1
+                    start_pos = starts[-match.depth]
                     if TRACE: logger_debug('   start_pos', start_pos)
                     yield Token(start_pos, end_pos, tokens_string[start_pos: end_pos + 1], output_value)
                     yielded = True
@@ -353,8 +365,7 @@ class Trie(object):
             if not yielded and include_unmatched:
                 if TRACE:
                     logger_debug('  unmatched but known token')
-                n = len(token_string)
-                start_pos = end_pos - n + 1
+                start_pos = starts[-1]
                 tok = Token(start_pos, end_pos, tokens_string[start_pos: end_pos + 1], None)
                 if TRACE:
                     logger_debug('  unmatched tok 2:', tok)
